@@ -159,15 +159,16 @@ Proof.
   set (top := mk [] [(Src 1, shift (qz 1) 10 0)] true).
   set (Fm := font_of [(Src 0, a); (Src 1, mk [] [(Src 0, shift (qz 1) 65 225)] true); (Src 2, top)]).
   set (Fb := font_of [(Src 0, a); (Src 1, mk [] [(Src 0, shift (qz 1) 65 600)] true); (Src 2, top)]).
-  destruct (q_flatten 10 Fm top) as [[top' d]|] eqn:E; [|vm_compute in E; discriminate].
-  destruct (q_gsem 10 Fb top) as [cs|] eqn:E1; [|vm_compute in E1; discriminate].
-  destruct (q_gsem 10 Fb top') as [cs'|] eqn:E2; [|vm_compute in E, E2; inversion E; subst; vm_compute in E2; discriminate].
-  exists Fm, Fb, top, top', cs, cs'.
-  vm_compute in E. inversion E; subst. vm_compute in E1. inversion E1; subst. vm_compute in E2. inversion E2; subst.
-  repeat split; try reflexivity.
+  exists Fm, Fb, top. eexists; eexists; eexists.
+  split; [reflexivity|]. split; [reflexivity|]. split; [reflexivity|].
+  split; [vm_compute; reflexivity|]. split; [vm_compute; reflexivity|]. split; [vm_compute; reflexivity|].
   intros (m & Hp & Hf).
   apply Permutation_length_1_inv in Hp. subst m.
-  inversion Hf as [|x y l l' Hxy Hr]; subst. destruct Hxy as [H|H]; vm_compute in H; discriminate.
+  inversion Hf as [|x y l l' Hxy Hr]; subst.
+  (* the first point's y coordinate tells the contours apart, in either direction *)
+  destruct Hxy as [H|H];
+    apply (f_equal (fun c : list pt => match c with p :: _ => Qnum (this (snd p)) | [] => 0%Z end)) in H;
+    vm_compute in H; discriminate.
 Qed.
 Print Assumptions flatten_across_locations_refuted.
 
